@@ -201,7 +201,15 @@ fn emit_case<W: Write>(c: &mut Cases<W>, rng: &mut Rng, i: usize, srcs: &Vec<Vec
     let after: RefCell<(Vec<(Vec<u8>, Vec<u8>)>, String)> = RefCell::new((Vec::new(), "-".into()));
     let res = catch(|| -> Result<Vec<(Vec<u8>, Vec<u8>)>, (Vec<(Vec<u8>, Vec<u8>)>, String)> {
         // the three equivalent ways of handing the sources to the builder, in turn
-        let cursors = || files.iter().map(|f| Reader::new(Cursor::new(&f[..])).unwrap().into_cursor().unwrap());
+        // (every third source has been used before it is handed over: moved to its last entry, then reset)
+        let cursors = || files.iter().enumerate().map(|(si, f)| {
+            let mut cur = Reader::new(Cursor::new(&f[..])).unwrap().into_cursor().unwrap();
+            if si % 3 == 1 {
+                let _ = cur.move_on_last().unwrap();
+                cur.reset();
+            }
+            cur
+        });
         let b = match files.len() % 3 {
             0 => {
                 let mut b = Merger::builder(&mf);
